@@ -756,8 +756,13 @@ func tableLayout(context *layoutContext, table_ bo.TableBoxITF, bottomSpace pr.F
 			resolvePercentagesBox(group, &table.BoxFields, 0)
 			column.GetCells = getColumnCells(table, column)
 		}
-		first := group.Children[0].Box()
-		last := group.Children[len(group.Children)-1].Box()
+		// extra empty columns have no position: the group extends over its columns of the grid
+		columns := group.Children
+		for len(columns) > 1 && columns[len(columns)-1].Box().GridX >= len(table.ColumnPositions) {
+			columns = columns[:len(columns)-1]
+		}
+		first := columns[0].Box()
+		last := columns[len(columns)-1].Box()
 		if table.Style.GetDirection() == "rtl" {
 			// column 0 is on the right: the group starts at its last column
 			first, last = last, first
